@@ -198,11 +198,12 @@ def create_junction(net, pn_bar, tfluid_k, height_m=0, name=None, index=None, in
     cols = ["name", "pn_bar", "tfluid_k", "height_m", "in_service", "type"]
     vals = [name, pn_bar, tfluid_k, height_m, bool(in_service), type]
 
+    if geodata is not None and len(geodata) != 2:
+        raise UserWarning("geodata must be given as (x, y) tuple")
+
     _set_entries(net, "junction", index, **dict(zip(cols, vals)), **kwargs)
 
     if geodata is not None:
-        if len(geodata) != 2:
-            raise UserWarning("geodata must be given as (x, y) tuple")
         net["junction_geodata"].loc[index, ["x", "y"]] = geodata
 
     return index
@@ -1091,6 +1092,7 @@ def create_pressure_control(
 
     # check if junctions exist to attach the pump to
     _check_branch(net, "PressureControl", index, from_junction, to_junction)
+    _check_junction_element(net, controlled_junction)
 
     _set_entries(net, "press_control", index, name=name, from_junction=from_junction, to_junction=to_junction,
                  controlled_junction=controlled_junction, control_active=bool(control_active),
@@ -1779,6 +1781,7 @@ def create_pressure_controls(net, from_junctions, to_junctions, controlled_junct
 
     index = _get_multiple_index_with_check(net, "press_control", index, len(from_junctions))
     _check_branches(net, from_junctions, to_junctions, "press_control")
+    _check_multiple_junction_elements(net, controlled_junctions)
 
     entries = {"name": name, "from_junction": from_junctions, "to_junction": to_junctions,
                "controlled_junction": controlled_junctions, "controlled_p_bar": controlled_p_bar,
